@@ -114,7 +114,8 @@ reg("C29", "model_checking",
 reg("C23", "exploration",
     "bounded-exhaustive enumeration of the suppression x finding product against a documentation-derived reference model, batched in independent cells",
     "Every element of {7 id patterns} x {21 file patterns} x {4 line classes} x {5 symbol classes} for 3 target findings through --suppress= / "
-    "--suppressions-list / --suppress-xml with relative and absolute inputs, every inline form of the manual (1857 functions and files) and the same "
+    "--suppressions-list / --suppress-xml with relative and absolute inputs, every inline form of the manual (1857 functions and files), all bracket lists of length 1..3 "
+    "over {3 ids} x {4 symbolName classes} per element in the plain, begin/end, macro, file and header forms, and the same "
     "entries as exitcode-suppressions is run through the real binary; reported set == unsuppressed findings minus those vlib/ref_suppress.py hides.",
     "Small scope: one suppression per cell; single-location findings; (absolute pattern, relative file) unconstrained because the base path is "
     "undocumented; invalid syntax only 'must not hide silently'. Trusted: ref_suppress.py, supcells.py. Three known findings.")
@@ -127,7 +128,8 @@ reg("C25", "exploration",
     "complete enumeration of the option lattice with the statement as oracle on the run's own output",
     "inputs(11) x error-exitcode{absent,0,1,7} x exitcode-suppressions(4) x executor(3) x format(2) + cached replay (second run on a build dir) + 10 "
     "invalid command lines; status == exitcode iff a reported finding (checkersReport excluded) is not matched by an entry (C23 reference), else 0; "
-    "invalid => 1.",
+    "invalid => 1; plus 6 inputs whose only finding is staticFunction / unusedFunction / ctunullpointer / ctuuninitvar / ctuArrayIndex / "
+    "ctuOneDefinitionRuleViolation x {single without build dir; single, thread -j2, process -j2 with build dir, fresh and cached run}.",
     "Default schedules only (C15/C21 explore them); --safety excluded by the statement. One known finding.")
 reg("C30", "exploration",
     "bounded-exhaustive enumeration of <valid> expressions against a reference interpretation of the cfg manual (in-process seam + real binary), plus complete single-edit mutation neighbourhood of a schema-covering seed cfg under ASan/UBSan",
